@@ -353,6 +353,7 @@ func zzCalls(name string) int { panic("spec only") }
 //@ ensures [ok]    result == nil ==> zzCalls("hsms.(transport).Write") == 1
 //@ ensures [sent]  zzCalls("hsms.(*ConnectionMetrics).incDataMsgSend") == 1 ==> specIsData(msg) && result == nil && zzCalls("hsms.(transport).Write") == 1
 //@ ensures [cnt]   specIsData(msg) && result == nil ==> zzCalls("hsms.(*ConnectionMetrics).incDataMsgSend") == 1
+//@ ensures [sent1] zzCalls("hsms.(*ConnectionMetrics).incDataMsgSend") <= 1
 //@ ensures [drop]  zzCalls("hsms.(*connection).dropNotSelected") <= 1 && (zzCalls("hsms.(*connection).dropNotSelected") == 1 ==> result == ErrNotSelectedState && zzCalls("hsms.(transport).Write") == 0)
 
 // specRejectErr: err is the typed error a peer Reject.req produces.
@@ -374,8 +375,8 @@ func specIsRejectErr(err error) bool { _, ok := err.(*RejectError); return ok }
 //@ ensures [drop]     zzCalls("hsms.(*ConnectionMetrics).incDataMsgDropNotSelected") == 1 ==> result1 == ErrNotSelectedState &&
 //@                    zzCalls("hsms.(transport).Write") == 0 && zzCalls("hsms.(*ConnectionMetrics).incDataMsgErr") == 0 && zzCalls("hsms.(*ConnectionMetrics).incDataMsgSend") == 0
 //@ ensures [err1]     zzCalls("hsms.(*ConnectionMetrics).incDataMsgErr") <= 1
-//@ ensures [t3]       result1 == ErrT3Timeout ==> specIsData(msg) && zzCalls("hsms.(*ConnectionMetrics).incDataMsgSend") == 1 && zzCalls("hsms.(*ConnectionMetrics).incDataMsgErr") == 1
-//@ ensures [closed]   result1 == ErrConnClosed ==> zzCalls("hsms.(*ConnectionMetrics).incDataMsgErr") == 0
+//@ ensures [errsend]  zzCalls("hsms.(*ConnectionMetrics).incDataMsgErr") == 1 ==> specIsData(msg) && result1 != nil && result0 == nil
+//@ ensures [reply]    result1 == nil && result0 != nil ==> zzCalls("hsms.(transport).Write") == 1 && zzCalls("hsms.(*ConnectionMetrics).incDataMsgErr") == 0
 
 //@ func (*connection).sendNoReply
 //@ nosafety nil-deref nil-iface
